@@ -75,6 +75,8 @@ def render(prog, resource_paths=None):
     for i in range(len(prog["nodes"]) - 1, -1, -1):
         nd = prog["nodes"][i]
         sig = "x" if nd["params"] == "x" else "x, y"
+        if nd.get("zdef"):
+            sig += ", z=10"      # a defaulted parameter that calls normally leave alone
         out.append("@m.memento_function")
         out.append("def %s(%s):" % (nd["name"], sig))
         out.append('    __vtrace__("%s", x, sorted(locals()))' % nd["name"])
@@ -125,7 +127,7 @@ def render(prog, resource_paths=None):
         if nd["fail_on"]:
             out.append("    if x in %r:" % (tuple(nd["fail_on"]),))
             out.append('        raise %s("boom %s %%d" %% x)' % ("__VNoMemo__" if nd.get("fail_kind") == "nomemo" else "ValueError", nd["name"]))
-        out.append('    return ["%s", x, r]' % nd["name"])
+        out.append('    return ["%s", x, r%s]' % (nd["name"], ', ["z", z]' if nd.get("zdef") else ""))
         out.append("")
     return "\n".join(out) + "\n"
 
